@@ -320,8 +320,12 @@ def invariants(canon):
         ks = n.kids
         txt = lambda k: (k.text or "")
         # adjacent operands
+        def emb(k):      # an embellished operator (script or limit element around an operator) is an operator, not an operand
+            while k.tag in ("msub", "msup", "msubsup", "munder", "mover", "munderover", "mmultiscripts") and k.kids:
+                k = k.kids[0]
+            return k.tag == "mo"
         for a, b_ in zip(ks, ks[1:]):
-            if not is_op(a) and not is_op(b_):
+            if not emb(a) and not emb(b_):
                 out.append(("adjacent-operands", f"<{a.tag}> directly followed by <{b_.tag}> in one row"))
                 break
         # sibling infix operators: one priority class or one n-ary family
@@ -621,7 +625,67 @@ def work_fences(item):
     return viol, counts, nontriv
 
 
+# ---------------------------------------------------------------------------------------------
+# fences that carry scripts: '( a + b )' with the closing (or opening) fence as the base of a script element, the way generators write
+# '(a+b)^2'; the pair still encloses exactly its contents, so the structural invariants (no pair split between a row and a sub-row, no
+# row starting with a closing fence, ...) hold on the canonical form whatever script element carries the fence
+
+SCRIPTED = {
+    "msub": lambda b: el("msub", b, mi("n")),
+    "msup": lambda b: el("msup", b, mn("2")),
+    "msubsup": lambda b: el("msubsup", b, mi("n"), mn("2")),
+    "msup-row": lambda b: el("msup", b, row(mi("n"), mo("+"), mn("1"))),
+    "msubsup-prime": lambda b: el("msubsup", b, mn("0"), mo("′")),
+    "mmultiscripts": lambda b: el("mmultiscripts", b, mi("n"), mn("2")),
+}
+SCRIPT_PAIRS = [("(", ")"), ("[", "]"), ("{", "}")]
+
+
+def scripted_rows():
+    out = []
+    for L, R in SCRIPT_PAIRS:
+        for tn, f in FENCE_TEMPLATES:
+            toks = f(("(", L), (")", R))
+            closers = [i for i, t in enumerate(toks) if t[0] == ")"]
+            for i in closers:
+                for sn in SCRIPTED:
+                    out.append((L, R, tn, i, sn))
+    return out
+
+
+def work_scripted(item):
+    where, rows = item
+    mc = mcx.worker_mc()
+    setup = [["rules_dir", mcx.RULES]]
+    docs = []
+    for L, R, tn, i, sn in rows:
+        toks = dict(FENCE_TEMPLATES)[tn](("(", L), (")", R))
+        kids = render(toks)
+        kids[i] = SCRIPTED[sn](kids[i])
+        docs.append(terms.doc(EMBED[where](kids)))
+    _, res = mc.run_cases(setup, [[["mathml", d]] for d in docs])
+    viol, counts, nontriv = [], {"evaluations": 0, "scripted_fence_rows": 0, "skipped_panics": 0, "rejected": 0}, []
+    for (L, R, tn, i, sn), r in zip(rows, res):
+        r = r[0]
+        counts["evaluations"] += 1
+        replay = {"where": where, "family": "scripted-fence", "row": [L, R, tn, i, sn]}
+        if is_panic(r):
+            counts["skipped_panics"] += 1
+            continue
+        if not is_ok(r):
+            counts["rejected"] += 1
+            viol.append((f"C03|scripted-fence|rejected|{tn}|{sn}", f"[{where}] {tn} with {L} {R}, closing fence #{i} in <{sn}>: set_mathml refused the row", replay))
+            continue
+        counts["scripted_fence_rows"] += 1
+        nontriv.append(hash((where, L, tn, i, sn)))
+        for k, w in invariants(val(r)):
+            viol.append((f"C03|scripted-fence|{k}|{tn}|{sn}", f"[{where}] {tn} with {L} {R}, closing fence (token {i}) as the base of <{sn}>: {w}", replay))
+    return viol, counts, nontriv
+
+
 def _dispatch(job):
+    if job[0] == "SCRIPTED":
+        return work_scripted(job[1:])
     return work_fences(job[1:]) if job[0] == "FENCES" else work(job)
 
 
@@ -699,7 +763,9 @@ def confirm(replay, verbose=False):
     old = mcx._worker_mc
     mcx._worker_mc = mc
     try:
-        if replay.get("family") == "fence-pair":
+        if replay.get("family") == "scripted-fence":
+            v, _, _ = work_scripted((replay["where"], [tuple(replay["row"])]))
+        elif replay.get("family") == "fence-pair":
             v, _, _ = work_fences((replay["where"], [tuple(replay["pair"])]))
             v = [x for x in v if x[2]["template"] == replay["template"]]
         else:
@@ -746,6 +812,10 @@ def main(tier):
     for where in ("top", "radicand", "numerator"):
         for i in range(0, len(fp), 12):
             jobs.append(("FENCES", where, fp[i:i + 12]))
+    sr = scripted_rows()
+    run.count("scripted_fence_rows_per_embedding", len(sr))
+    for where in (EMBED if tier == "thorough" else ("top", "radicand", "fenced-arg")):
+        jobs.append(("SCRIPTED", where, sr))
     for viol, counts, nontriv in mcx.pmap(_dispatch, jobs):
         run.merge_violations(viol)
         run.merge_counts(counts)
@@ -755,7 +825,7 @@ def main(tier):
         rule=f"dictionary of {len(d)} operators read from src/operator-info.in. Rows: a op1 b op2 k for " + ("every infix operator" if tier == "thorough" else "every 4th infix operator") +
              " against one representative per (forms, priorities) class and all representative pairs; every prefix and postfix operator alone and against infix representatives; "
              "triples over " + ("all" if tier == "thorough" else "every 3rd") + f" infix representatives; prefix/postfix/infix mixes; every row of <= {5 if tier == 'quick' else 6} tokens over a 12-symbol core "
-             "(operands, + − × = , ! ( ) - and unbalanced fences); parenthesised rows; function application and implied multiplication next to every infix class and every operator binding tighter than application (invariants only); a sample of these re-embedded in 6 two-dimensional positions. Exact comparison for rows whose "
+             "(operands, + − × = , ! ( ) - and unbalanced fences); parenthesised rows; 7 fence templates x ( ) [ ] { } with each closing fence as the base of msub/msup/msubsup/mmultiscripts (invariants only); function application and implied multiplication next to every infix class and every operator binding tighter than application (invariants only); a sample of these re-embedded in 6 two-dimensional positions. Exact comparison for rows whose "
              "assignment of dictionary forms is unique; structural invariants on every row of every output. distinct_nontrivial = distinct rows of the exact class compared",
         assumptions=["associativity among different operators of equal priority is not given by the dictionary and is not compared",
                      "rows where a prefix priority ties with an infix/postfix priority, fence/ambiguous entries, pseudo-script characters and explicitly written invisible operators (which carry the function-application / trig-argument / mixed-number heuristics) are outside the exact class (invariants only)",
